@@ -65,7 +65,8 @@ var termAlphabet = [][]byte{
 	{0x00}, {0xfe}, {0x80, 0x01}, bytes.Repeat([]byte("lo"), 150),
 }
 
-var fieldPool = []string{"body", "name", "tag", "desc", "x1", "x2", "zeta", strings.Repeat("longname", 20)}
+var fieldPool = []string{"body", "name", "tag", "desc", "x1", "x2", "zeta", strings.Repeat("longname", 20),
+	"Title", "0num"} // the last two sort before "_id" (as the composite "_all" does)
 
 type batchCfg struct {
 	maxDocs   int
@@ -156,6 +157,10 @@ func (g *Gen) randToks(cfg *batchCfg, docFields []string, composite bool) ([]Tok
 	}
 	if len(toks) > 0 && g.chance(0.2) {
 		ln += g.r.Intn(200)
+	}
+	if len(toks) > 0 && g.chance(0.06) {
+		// analysed lengths whose norm has a 0x80 byte in its varint, and very long fields
+		ln = []int{128, 256, 1024, 16384, 1 << 20, 128 * (1 + g.r.Intn(100))}[g.r.Intn(6)]
 	}
 	return toks, ln
 }
@@ -391,6 +396,15 @@ func (g *Gen) dumpIndex(seg string) {
 		for i, t := range probe {
 			g.emit("q post %s %s %s ex=nil fl=%s pl=pd it=id ops=%s", seg, f, hx(t), []string{"000", "111", "100"}[i%3], g.nexts(nd+1))
 		}
+		// hits that are stepped over rather than read: an excluded first document, an Advance
+		if nd >= 2 {
+			for _, t := range probe {
+				if g.chance(0.5) {
+					g.emit("q post %s %s %s ex=0 fl=111 ops=%s", seg, f, hx(t), g.nexts(nd+1))
+					g.emit("q post %s %s %s ex=nil fl=111 ops=A%d,%s", seg, f, hx(t), 1+g.r.Intn(nd-1), g.nexts(nd))
+				}
+			}
+		}
 	}
 }
 
@@ -516,6 +530,11 @@ func (g *Gen) genC01(n int) error {
 		}
 		if (g.tier == "thorough" && i%150 == 77) || (g.tier == "quick" && i%160 == 77) {
 			g.bigBuildCase([]int{1025, 1026, 1024, 1025}[(i/150)%4])
+			g.st("case")
+			continue
+		}
+		if (g.tier == "thorough" && i%150 == 33) || (g.tier == "quick" && i%160 == 33) {
+			g.wideSchemaCase(false)
 			g.st("case")
 			continue
 		}
@@ -657,9 +676,22 @@ func (g *Gen) genC03(n int) error {
 	defer g.emit("cfg dvchunk=1024")
 	for i := 0; i < n; i++ {
 		g.emit("note case %d", i)
+		if i == 5 {
+			// more than 1024 documents: several doc-value chunks of the real size
+			g.emit("cfg dvchunk=1024")
+			g.bigFrozenCase(1026)
+			g.st("case")
+			continue
+		}
 		dvc := dvChunks[g.r.Intn(len(dvChunks))]
 		g.emit("cfg dvchunk=%d", dvc)
 		g.setMode()
+		if i%10 == 3 {
+			// merged segments: the visitable fields and the values of the survivors
+			g.genMergeCase(nil, func(m string) { g.dumpDv(m, "-") }, 1+g.r.Intn(2))
+			g.st("case")
+			continue
+		}
 		var segs []string
 		for k := 0; k < 2; k++ {
 			cfg := g.defaultCfg()
@@ -714,6 +746,12 @@ func (g *Gen) genC03(n int) error {
 			}
 			g.emit("q dv %s %s fields=%s doc=%d", cur, st3, strList(sub), g.r.Intn(g.ndocs[cur]))
 		}
+		// two private states on the same segment, visited alternately (each keeps its own chunk)
+		sa, sb := g.fresh("st"), g.fresh("st")
+		for v := 0; v < 6+g.r.Intn(6); v++ {
+			g.emit("q dv %s %s fields=%s doc=%d", segs[0], sa, strList(allf), g.r.Intn(g.ndocs[segs[0]]))
+			g.emit("q dv %s %s fields=%s doc=%d", segs[0], sb, strList(allf), g.r.Intn(g.ndocs[segs[0]]))
+		}
 		// descending order with a fresh state
 		st2 := g.fresh("st")
 		for d := g.ndocs[segs[1]] - 1; d >= 0; d-- {
@@ -756,6 +794,12 @@ func (g *Gen) genC04(n int) error {
 		o := g.fresh("o")
 		g.emit("open %s %s", o, f)
 		g.alias(o, s)
+		if g.chance(0.3) {
+			// another reader came and went before the comparison
+			g.emit("ref addref %s", o)
+			g.emit("ref decref %s", o)
+			g.st("sharer")
+		}
 		g.dumpAll(s)
 		g.dumpAll(o)
 		g.emit("close %s", o)
@@ -1306,6 +1350,10 @@ func (g *Gen) genC08(n int) error {
 					lo, hi := g.randRange(terms)
 					g.emit("q dict %s %s aut=all lo=%s hi=%s probe=-", seg, f, lo, hi)
 				}
+				// two iterators of one dictionary alive together
+				lo1, hi1 := g.randRange(terms)
+				lo2, hi2 := g.randRange(terms)
+				g.emit("q dictpair %s %s lo1=%s hi1=%s lo2=%s hi2=%s", seg, f, lo1, hi1, lo2, hi2)
 			}
 		}
 		if depth == 0 {
@@ -1540,4 +1588,70 @@ func sumInts(xs []int) int {
 		t += x
 	}
 	return t
+}
+
+// wideSchemaCase: more than 128 fields, so that field numbers need two-byte varints, with a
+// composite field whose locations name fields on the far side of that boundary; hits are read,
+// skipped by exclusion and skipped by Advance.
+func (g *Gen) wideSchemaCase(files bool) {
+	g.setMode()
+	b := &BatchSpec{Name: g.fresh("b")}
+	nf := 136 + g.r.Intn(8)
+	for d := 0; d < 4; d++ {
+		id := []byte(fmt.Sprintf("%s-%d", b.Name, d))
+		doc := DocSpec{ID: id, Plain: true}
+		doc.Fields = append(doc.Fields, FieldSpec{Kind: "fld", Name: "_id", Typ: 't', Stored: true, Len: 1, Val: id, Toks: []TokSpec{{Term: id, Freq: 1}}})
+		var compLocs []LocSpec
+		for k := 0; k < nf; k++ {
+			name := fmt.Sprintf("f%03d", k)
+			if d > 0 && k%3 != d%3 && k < nf-10 {
+				continue
+			}
+			t := TokSpec{Term: []byte("x"), Freq: 1, Locs: []LocSpec{{Pos: 1 + k%5, Start: k, End: k + 1}}}
+			doc.Fields = append(doc.Fields, FieldSpec{Kind: "fld", Name: name, Typ: 't', Stored: k == nf-1, Val: []byte("v"), Len: 1, DV: k%50 == 0, Toks: []TokSpec{t}})
+			if k >= nf-8 || k < 2 {
+				compLocs = append(compLocs, LocSpec{Src: name, Pos: 1 + k%5, Start: k, End: k + 1})
+			}
+		}
+		doc.Fields = append(doc.Fields, FieldSpec{Kind: "comp", Name: "_all", Typ: 'c', Len: len(compLocs), Toks: []TokSpec{{Term: []byte("x"), Freq: len(compLocs), Locs: compLocs}}})
+		b.Docs = append(b.Docs, doc)
+	}
+	g.emitBatch(b)
+	s := g.fresh("s")
+	g.emit("build %s %s", s, b.Name)
+	g.newBuilt(s, b)
+	segs := []string{s}
+	if files {
+		f := g.fresh("f")
+		g.emit("persist %s %s", s, f)
+		g.emit("dumpfile %s", f)
+		o := g.fresh("o")
+		g.emit("open %s %s", o, f)
+		g.alias(o, s)
+		segs = append(segs, o)
+		mf := g.fresh("f")
+		g.emit("merge %s segs=%s,%s drops=1|0,2", mf, o, s)
+		g.emit("dumpfile %s", mf)
+		m := g.fresh("m")
+		g.emit("open %s %s", m, mf)
+		g.ndocs[m] = 5
+		segs = append(segs, m)
+	}
+	x := hx([]byte("x"))
+	for _, seg := range segs {
+		g.emit("q fields %s", seg)
+		for _, fn := range []string{"_all", fmt.Sprintf("f%03d", nf-1), fmt.Sprintf("f%03d", nf-9), "f000", "f126", "f127"} {
+			g.emit("q post %s %s %s ex=nil fl=111 ops=N,N,N,N,N,N", seg, fn, x)
+			g.emit("q post %s %s %s ex=0 fl=111 ops=N,N,N,N,N", seg, fn, x)
+			g.emit("q post %s %s %s ex=1,2 fl=111 ops=N,N,N,N", seg, fn, x)
+			g.emit("q post %s %s %s ex=nil fl=111 ops=A2,N,N,N", seg, fn, x)
+			g.emit("q post %s %s %s ex=nil fl=001 ops=N,A3,N", seg, fn, x)
+		}
+		g.emit("q stored %s 0 stop=*", seg)
+		g.emit("q dv %s - fields=f000,f050,f100 doc=0", seg)
+	}
+	for _, seg := range segs[1:] {
+		g.emit("close %s", seg)
+	}
+	g.st("wideschema")
 }
